@@ -5682,3 +5682,242 @@ func ruleEachRangeOnItsOwn(id string) func(*Checker) {
 		}
 	}
 }
+
+// ---- round 25 ----
+
+// ruleSubPathJudgedAsGiven — the sub-path that is judged and kept is the one that was handed in.
+func ruleSubPathJudgedAsGiven(id string) func(*Checker) {
+	return func(c *Checker) {
+		c.rule(id, "In the one-argument sub-path sanitiser (the (string) (string, error) function of the address package that calls fs.ValidPath) the value put to fs.ValidPath is the parameter itself, and what is returned with a nil error is the parameter or path.Clean of it: nothing from package strings or unicode stands between. A sanitiser that trims or folds first maps two different directory names (`NOTES ` and `NOTES`) to one address, and the path that a lookup translated into an address no longer comes back from it.", 1)
+		p := c.P
+		n := 0
+		for fn := range p.subPathSanitisers() {
+			if len(fn.Params) != 1 || !isStringType(fn.Params[0].Type()) {
+				continue
+			}
+			prm := fn.Params[0]
+			n++
+			bad := ""
+			for _, ci := range callsIn(fn) {
+				if isFunc(calleeObj(ci), "io/fs", "ValidPath") && canon(ci.Common().Args[0]) != ssa.Value(prm) {
+					bad = "fs.ValidPath is put " + ci.Common().Args[0].String() + " at " + p.Pos(ci.Pos()) + ", not the parameter"
+				}
+			}
+			for _, r := range returnsOf(fn) {
+				if len(r.Results) != 2 || !mayReturnNilErr(r) {
+					continue
+				}
+				for w := range p.backSlice(r.Results[0], 0) {
+					if cl, ok := w.(*ssa.Call); ok {
+						if o := calleeObj(cl); o != nil && (objPkgPath(o) == "strings" || objPkgPath(o) == "unicode" || objPkgPath(o) == "bytes") {
+							switch o.Name() {
+							case "Contains", "ContainsAny", "ContainsRune", "HasPrefix", "HasSuffix", "Index", "IndexByte", "IndexAny", "IndexRune":
+							default:
+								bad = "the value returned passes through " + o.FullName()
+							}
+						}
+					}
+				}
+			}
+			c.check(bad == "", id, p.FuncName(fn), "judged and returned as given", p.Pos(fn.Pos()), "fs.ValidPath sees the parameter; the result is it or its path.Clean", bad)
+		}
+		if n == 0 {
+			c.anchorMissing(id, "the one-argument sub-path sanitiser")
+		}
+	}
+}
+
+// ruleEnsureByPackageOnly — what is fetched, pruned and named is decided by the package address alone.
+func ruleEnsureByPackageOnly(id string) func(*Checker) {
+	return func(c *Checker) {
+		c.rule(id, "The function that fetches a package (the caller of FetchSourcePackage) is told which package, and nothing about the source address that led to it: no parameter of it is an address type that carries a sub-path. A package is fetched, pruned, hashed and named once, by whichever source reaches it first; anything taken from that source (its sub-path's own rule file, say) makes the package's content, its directory name and the manifest depend on the order of the Add calls and of discovery.", 1)
+		p := c.P
+		fn, _ := ensureFunc(p)
+		if fn == nil {
+			c.anchorMissing(id, "the package-ensuring function")
+			return
+		}
+		bad := ""
+		for _, prm := range fn.Params {
+			if nt, ok := types.Unalias(prm.Type()).(*types.Named); ok {
+				switch nt.Obj().Name() {
+				case "RemoteSource", "RegistrySource", "RegistrySourceFinal", "LocalSource", "remoteArtifact", "registryArtifact":
+					bad = prm.Name() + " " + nt.Obj().Name()
+				}
+			}
+		}
+		c.check(bad == "", id, p.FuncName(fn), "told the package only", p.Pos(fn.Pos()), "no parameter carries a sub-path or a finder", "the function takes "+bad+": what it does to the package can depend on which of the package's sources arrived first")
+	}
+}
+
+// ruleNoAllocationByHeaderSize — nothing is allocated to the size an archive header claims.
+func ruleNoAllocationByHeaderSize(id string) func(*Checker) {
+	return func(c *Checker) {
+		c.rule(id, "Nothing Unpack reaches makes a slice whose length derives from a field of the tar header (Size, or anything else the stream dictates): archive/tar accepts any non-negative size without comparing it with the data that follows, and `make([]byte, header.Size)` panics — or exhausts memory — on a header of a few dozen bytes.", 0)
+		// (decided per form: behind an option that is off by default the inlined form has nothing to show)
+		u := getUnpackCtx(c, id)
+		if u == nil {
+			return
+		}
+		p := c.P
+		n := 0
+		for _, fn := range u.ReachL {
+			if !p.InModule(fn) {
+				continue
+			}
+			eachInstr(fn, func(in ssa.Instruction) {
+				ms, ok := in.(*ssa.MakeSlice)
+				if !ok {
+					return
+				}
+				n++
+				for w := range p.backSlice(ms.Len, 1) {
+					if fa, ok := w.(*ssa.FieldAddr); ok {
+						if f := fieldOf(fa); f != nil && f.Pkg() != nil && f.Pkg().Path() == "archive/tar" {
+							c.fail(id, p.FuncName(fn), "slice made to a length the header dictates", p.Pos(ms.Pos()), "the length of this allocation derives from tar.Header."+f.Name()+": a hostile or damaged header makes it panic or exhaust memory")
+							return
+						}
+					}
+				}
+			})
+		}
+		c.pass(id, "-", "allocations inspected", "-", fmt.Sprintf("%d make([]T, n) in what Unpack reaches", n))
+	}
+}
+
+// ruleIllegalSlugOnlyFromJudges — Unpack refuses a slug on the word of the two judges it has, and on nothing else.
+func ruleIllegalSlugOnlyFromJudges(id string) func(*Checker) {
+	return func(c *Checker) {
+		c.rule(id, "In what Unpack reaches, an IllegalSlugError whose cause is made on the spot (fmt.Errorf, errors.New) is made only inside the link validator and the entry constructor; Unpack itself wraps what those two, or a library call, returned. A refusal of Unpack's own — names that differ only in case, names too long, too many entries — turns slugs that Pack writes from ordinary trees into illegal ones.", 1)
+		// (decided per form: behind an option that is off by default the inlined form has nothing to show)
+		u := getUnpackCtx(c, id)
+		if u == nil {
+			return
+		}
+		p := c.P
+		judges := map[*ssa.Function]bool{u.Ctor: true}
+		for _, s := range fsSinkSites(u.ReachL) {
+			if s.Sink.Class != "symlink" {
+				continue
+			}
+			if v, _ := p.validatorGuard(s.Call, 2); v != nil {
+				judges[v.Common().StaticCallee()] = true
+			}
+		}
+		for j := range judges {
+			for f := range p.family(j) {
+				judges[f] = true
+			}
+		}
+		n := 0
+		for _, fn := range u.ReachL {
+			if !p.InModule(fn) {
+				continue
+			}
+			eachInstr(fn, func(in ssa.Instruction) {
+				st, ok := in.(*ssa.Store)
+				if !ok {
+					return
+				}
+				fa, ok := st.Addr.(*ssa.FieldAddr)
+				if !ok || !isNamedT(derefType(fa.X.Type()), "IllegalSlugError") {
+					return
+				}
+				n++
+				fresh := false
+				madeHere := func(v ssa.Value) bool {
+					for w := range p.backSlice(v, 0) {
+						if cl, ok := w.(*ssa.Call); ok {
+							if o := calleeObj(cl); isFunc(o, "fmt", "Errorf") || isFunc(o, "errors", "New") {
+								return true
+							}
+						}
+					}
+					return false
+				}
+				if madeHere(st.Val) {
+					fresh = true
+				}
+				// ... or made on the spot by a helper that is not one of the judges
+				for w := range p.backSlice(st.Val, 0) {
+					cl, ok := w.(*ssa.Call)
+					if !ok {
+						continue
+					}
+					g := cl.Common().StaticCallee()
+					if g == nil || !p.InModule(g) || g.Blocks == nil || judges[g] {
+						continue
+					}
+					for _, r := range returnsOf(g) {
+						if len(r.Results) > 0 && isErrorType(r.Results[len(r.Results)-1].Type()) && madeHere(r.Results[len(r.Results)-1]) {
+							fresh = true
+						}
+					}
+				}
+				if !fresh {
+					return
+				}
+				if !judges[outerFn(p, fn)] && !judges[fn] {
+					c.fail(id, p.FuncName(fn), "illegal-slug error made outside the judges", p.Pos(st.Pos()), "an IllegalSlugError with a cause made on the spot is built outside the link validator and the entry constructor: Unpack refuses slugs on a rule of its own")
+				}
+			})
+		}
+		c.pass(id, "-", "illegal-slug errors inspected", "-", fmt.Sprintf("%d construction site(s) in what Unpack reaches", n))
+	}
+}
+
+// ruleLoadedRulesReachTheWalk — the rule set the package's walk applies is the one that was loaded for the package.
+func ruleLoadedRulesReachTheWalk(id string) func(*Checker) {
+	return func(c *Checker) {
+		c.rule(id, "In the function that fetches a package, the rule set handed to the prepare walk (the *Ruleset argument of the module function whose result goes to filepath.Walk) is the result of the ignore-rule loader itself, on every path — not nil, not another set chosen on a look at the package's top level. The built-in rules are unanchored: a package without a rule file and without .git or .terraform at its root can still have them three directories down.", 1)
+		p := c.P
+		fn, _ := ensureFunc(p)
+		if fn == nil {
+			c.anchorMissing(id, "the package-ensuring function")
+			return
+		}
+		isRuleset := func(t types.Type) bool {
+			pt, ok := t.Underlying().(*types.Pointer)
+			if !ok {
+				return false
+			}
+			nt, ok := pt.Elem().(*types.Named)
+			return ok && nt.Obj().Name() == "Ruleset"
+		}
+		var loaded ssa.Value
+		for _, ci := range callsIn(fn) {
+			cl, ok := ci.(*ssa.Call)
+			if !ok {
+				continue
+			}
+			g := cl.Common().StaticCallee()
+			if g == nil || g.Pkg == nil || g.Pkg.Pkg.Path() != p.PkgPath("ignorefiles") {
+				continue
+			}
+			if r := g.Signature.Results(); r.Len() == 2 && isRuleset(r.At(0).Type()) {
+				loaded = extractOf(cl, 0)
+			}
+		}
+		if loaded == nil {
+			c.anchorMissing(id, "the call of the ignore-rule loader in the package-ensuring function")
+			return
+		}
+		n := 0
+		for _, ci := range callsIn(fn) {
+			g := ci.Common().StaticCallee()
+			if g == nil || !inBundlePkg(p, g) {
+				continue
+			}
+			for _, a := range ci.Common().Args {
+				if !isRuleset(a.Type()) {
+					continue
+				}
+				n++
+				c.check(canon(a) == loaded, id, p.FuncName(fn), "rules given to "+g.Name()+" are the loaded ones", p.Pos(ci.Pos()), "the argument is the loader's result", "the rule set given to "+g.Name()+" is "+canon(a).String()+", which is not (always) what the loader returned for this package")
+			}
+		}
+		if n == 0 {
+			c.anchorMissing(id, "a module function that is handed the loaded rule set")
+		}
+	}
+}
